@@ -45,6 +45,9 @@ package bcl
 //@   loop 1 step [C01,C10,C14] jump_forward: instr == opJUMP ==> vm.pc == prev(vm.pc + 3 + jumpdist(vm))
 //@   loop 1 step [C01,C10,C14] jfalse_keeps_operand: instr == opJFALSE ==> vm.pc == prev(vm.pc + 3 + (falsey(top(vm)) ? jumpdist(vm) : 0)) && top(vm) == prev(top(vm))
 //@   loop 1 step [C10] untouched_below: instr != opSETLOCAL ==> (forall i int :: 0 <= i && i < prev(vm.tos) - needOf(instr) && i < vm.tos ==> vm.stack[i] == prev(vm.stack[i]))
+// statistics: exactly one instruction is counted per iteration, so the trace (one
+// disasmInstr per iteration) lists as many instructions as opsRead reports (C19)
+//@   loop 1 step [C19] one_op_counted_per_instruction: vm.stats.opsRead == prev(vm.stats.opsRead) + 1
 // values (C01)
 //@   loop 1 step [C01,C14] const_pushes_constant: instr == opCONST ==> top(vm) == prev(vm.prog.constants[int(operand1(vm))])
 //@   loop 1 step [C01] literals: (instr == opZERO ==> top(vm) == VInt(0)) && (instr == opONE ==> top(vm) == VInt(1)) && (instr == opTRUE ==> top(vm) == VBool(true)) && (instr == opFALSE ==> top(vm) == VBool(false)) && (instr == opNIL ==> top(vm) == VNil())
